@@ -20,9 +20,11 @@ import (
 	"bufio"
 	"bytes"
 	"context"
+	"crypto/sha1"
 	"encoding/json"
 	"fmt"
 	"io"
+	"log/slog"
 	"math/rand"
 	"os"
 	"sort"
@@ -33,6 +35,8 @@ import (
 	"github.com/hydraide/hydraide/app/server/gateway"
 	hydrapb "github.com/hydraide/hydraide/sdk/go/hydraidego/v3/hydraidepbgo"
 	"github.com/vmihailenco/msgpack/v5"
+	"google.golang.org/grpc/codes"
+	"google.golang.org/grpc/status"
 	"google.golang.org/protobuf/types/known/timestamppb"
 
 	"verifharness/rig"
@@ -234,10 +238,13 @@ func bodyOf(d Doc, rng *rand.Rand) ([]byte, error) {
 
 func kvOf(d Doc, withTimes bool, rng *rand.Rand) (*hydrapb.KeyValuePair, error) {
 	kv := &hydrapb.KeyValuePair{Key: d.Key}
-	if d.Bk == "map" {
+	if d.Bk == "map" || d.Bk == "raw" {
 		b, err := bodyOf(d, rng)
 		if err != nil {
 			return nil, err
+		}
+		if d.Bk == "raw" {
+			b = b[2:] // plain msgpack, without the SDK's magic prefix
 		}
 		kv.BytesVal = b
 	} else {
@@ -404,33 +411,38 @@ var idxMap = map[string]hydrapb.IndexType_Type{
 // ---------------------------------------------------------------------------------------------
 
 type runner struct {
-	r      *rig.Rig
-	c      hydrapb.HydraideServiceClient
-	rng    *rand.Rand
-	out    *json.Encoder
-	st     stats
-	maxRep int
+	r        *rig.Rig
+	c        hydrapb.HydraideServiceClient
+	rng      *rand.Rand
+	out      *json.Encoder
+	st       stats
+	maxRep   int
+	seen     map[[12]byte]struct{}
+	infra    error
+	withCase map[string]int
 }
 
 type stats struct {
-	Cases, Queries, Runs           int
-	RoutedBucket, RoutedObserved   int // bucket-form runs the gateway's own branch condition routes to the bucket / where a bucket was observed afterwards
-	BucketBuilds                   int // runs after which the swamp's bucket count had grown
-	ScanOK, BucketOK               int
-	ScanDev, BucketDev             int
-	Unexplained                    int
-	PlanMismatch                   int
-	SpecDisagree                   int
-	RoutesDiffer                   int // observed scan answer != observed bucket answer (as sequences)
-	NonEmpty                       int // runs with a non-empty observed answer
-	Labelled                       int // runs whose observed answer carries at least one label
-	TieCases                       int // expectations with more than one allowed answer
-	Round2                         int
-	Mutations                      int
-	DevCount                       map[string]int
-	ModeCount                      map[string]int
-	KindCount                      map[string]int
-	Reported                       int
+	Cases, Queries, Runs         int
+	RoutedBucket, RoutedObserved int // bucket-form runs the gateway's own branch condition routes to the bucket / where a bucket was observed afterwards
+	BucketBuilds                 int // runs after which the swamp's bucket count had grown
+	ScanOK, BucketOK             int
+	ScanDev, BucketDev           int
+	Unexplained                  int
+	PlanMismatch                 int
+	SpecDisagree                 int
+	RoutesDiffer                 int // observed scan answer != observed bucket answer (as sequences)
+	ManyRuns                     int // additional runs through GetByIndexStreamFromMany (single-swamp request)
+	NonEmpty                     int // runs with a non-empty observed answer
+	Labelled                     int // runs whose observed answer carries at least one label
+	TieCases                     int // expectations with more than one allowed answer
+	Round2                       int
+	Mutations                    int
+	DevCount                     map[string]int
+	ModeCount                    map[string]int
+	KindCount                    map[string]int
+	Reported                     int
+	DistinctNontrivial           int // distinct (contents, query) pairs routed through the bucket with a non-empty strict answer
 }
 
 type report struct {
@@ -493,6 +505,9 @@ func (x *runner) keys(sw string) ([]string, error) {
 		if err == io.EOF {
 			break
 		}
+		if status.Code(err) == codes.FailedPrecondition {
+			return nil, nil // a swamp that lost its last record no longer exists
+		}
 		if err != nil {
 			return nil, err
 		}
@@ -516,41 +531,69 @@ type answer struct {
 	err     string
 }
 
-func (x *runner) query(sw string, q Query, f *hydrapb.FilterGroup) answer {
-	req := &hydrapb.GetByIndexStreamRequest{IslandID: 1, SwampName: sw, IndexType: idxMap[q.Idx], OrderType: hydrapb.OrderType_ASC,
-		From: q.From, Limit: q.Limit, MaxResults: q.Max, Filters: f, ExcludeKeys: q.Excl}
+// query runs one GetByIndexStream (many == false) or one single-swamp GetByIndexStreamFromMany.
+// There is no deadline: a hang is caught by the runner's timeout and is inconclusive, never a verdict.
+func (x *runner) query(sw string, q Query, f *hydrapb.FilterGroup, empty bool, many bool) answer {
+	order := hydrapb.OrderType_ASC
 	if q.Desc {
-		req.OrderType = hydrapb.OrderType_DESC
+		order = hydrapb.OrderType_DESC
 	}
+	var ft, tt *timestamppb.Timestamp
 	if q.Ft > 0 {
-		req.FromTime = timestamppb.New(rankTime(q.Ft))
+		ft = timestamppb.New(rankTime(q.Ft))
 	}
 	if q.Tt > 0 {
-		req.ToTime = timestamppb.New(rankTime(q.Tt))
+		tt = timestamppb.New(rankTime(q.Tt))
 	}
-	ctx, cancel := context.WithTimeout(context.Background(), 60*time.Second)
-	defer cancel()
 	a := answer{hits: []Hit{}, content: map[string]string{}}
-	st, err := x.c.GetByIndexStream(ctx, req)
-	if err != nil {
-		a.err = err.Error()
-		return a
+	var recv func() (*hydrapb.Treasure, *hydrapb.SearchResultMeta, error)
+	if many {
+		st, err := x.c.GetByIndexStreamFromMany(context.Background(), &hydrapb.GetByIndexStreamFromManyRequest{Queries: []*hydrapb.SwampQuery{{
+			IslandID: 1, SwampName: sw, IndexType: idxMap[q.Idx], OrderType: order, From: q.From, Limit: q.Limit, FromTime: ft, ToTime: tt,
+			Filters: f, MaxResults: q.Max, ExcludeKeys: q.Excl}}})
+		if err != nil {
+			a.err = err.Error()
+			return a
+		}
+		recv = func() (*hydrapb.Treasure, *hydrapb.SearchResultMeta, error) {
+			m, err := st.Recv()
+			return m.GetTreasure(), m.GetMeta(), err
+		}
+	} else {
+		st, err := x.c.GetByIndexStream(context.Background(), &hydrapb.GetByIndexStreamRequest{IslandID: 1, SwampName: sw, IndexType: idxMap[q.Idx],
+			OrderType: order, From: q.From, Limit: q.Limit, FromTime: ft, ToTime: tt, MaxResults: q.Max, Filters: f, ExcludeKeys: q.Excl})
+		if err != nil {
+			a.err = err.Error()
+			return a
+		}
+		recv = func() (*hydrapb.Treasure, *hydrapb.SearchResultMeta, error) {
+			m, err := st.Recv()
+			return m.GetTreasure(), m.GetMeta(), err
+		}
 	}
 	for {
-		m, err := st.Recv()
+		t, meta, err := recv()
 		if err == io.EOF {
+			break
+		}
+		if empty && status.Code(err) == codes.FailedPrecondition {
+			break // the model's contents are empty: the swamp does not exist any more, nothing to stream
+		}
+		if c := status.Code(err); c == codes.Unavailable || c == codes.DeadlineExceeded || c == codes.Canceled || c == codes.ResourceExhausted {
+			x.infra = fmt.Errorf("transport problem during a query: %v", err)
+			a.err = err.Error()
 			break
 		}
 		if err != nil {
 			a.err = err.Error()
 			break
 		}
-		h := Hit{Key: m.GetTreasure().GetKey(), Labels: []string{}}
-		if m.GetMeta() != nil {
-			h.Labels = append(h.Labels, m.GetMeta().GetMatchedLabels()...)
+		h := Hit{Key: t.GetKey(), Labels: []string{}}
+		if meta != nil {
+			h.Labels = append(h.Labels, meta.GetMatchedLabels()...)
 		}
 		a.hits = append(a.hits, h)
-		a.content[h.Key] = string(m.GetTreasure().GetBytesVal())
+		a.content[h.Key] = string(t.GetBytesVal())
 	}
 	return a
 }
@@ -583,7 +626,10 @@ func inSet(h []Hit, set [][]Hit) bool {
 
 func (x *runner) emit(rep report, raw []byte) {
 	x.st.Reported++
-	if rep.Class != "dev" || x.st.DevCount[strings.Join(rep.Devs, "+")+"/"+rep.Route] <= x.maxRep {
+	k := rep.Class + "/" + strings.Join(rep.Devs, "+") + "/" + rep.Route
+	x.withCase[k]++
+	// every unexplained report carries its case (up to a bound); explained ones only the first few per class
+	if (rep.Class != "dev" && x.withCase[k] <= 200) || x.withCase[k] <= x.maxRep {
 		rep.CaseJSON = raw
 	}
 	x.out.Encode(rep)
@@ -668,6 +714,22 @@ func (x *runner) runCase(idx int, raw []byte) error {
 				r.Class, r.Detail = "spec", "the strict specification's two routes disagree on this case (specification error)"
 				x.emit(r, raw)
 			}
+			if cqs[i].mode != "bypass" && len(exp.Strict) > 0 && len(exp.Strict[0]) > 0 {
+				h := sha1.New()
+				enc := json.NewEncoder(h)
+				enc.Encode(c.Docs)
+				enc.Encode(c.Pre)
+				if round == 2 {
+					enc.Encode(c.Post)
+				}
+				enc.Encode(qc.Q)
+				var k [12]byte
+				copy(k[:], h.Sum(nil))
+				if _, dup := x.seen[k]; !dup {
+					x.seen[k] = struct{}{}
+					x.st.DistinctNontrivial++
+				}
+			}
 			x.st.ModeCount[cqs[i].mode]++
 			if cqs[i].mode != exp.Mode {
 				x.st.PlanMismatch++
@@ -677,10 +739,13 @@ func (x *runner) runCase(idx int, raw []byte) error {
 				x.emit(r, raw)
 			}
 			before := x.bucketCount(sw)
-			ab := x.query(sw, qc.Q, cqs[i].g)
+			ab := x.query(sw, qc.Q, cqs[i].g, len(want) == 0, false)
 			after := x.bucketCount(sw)
-			as := x.query(sw, qc.Q, cqs[i].forced)
+			as := x.query(sw, qc.Q, cqs[i].forced, len(want) == 0, false)
 			x.st.Runs += 2
+			if x.infra != nil {
+				return x.infra
+			}
 			if cqs[i].mode != "bypass" { // all four index types used here satisfy bucketExecPreconditions
 				x.st.RoutedBucket++
 				if after > 0 {
@@ -693,12 +758,29 @@ func (x *runner) runCase(idx int, raw []byte) error {
 			if !sameHits(ab.hits, as.hits) {
 				x.st.RoutesDiffer++
 			}
-			for _, rt := range []struct {
+			type routeRun struct {
 				name  string
 				a, o  answer
 				built [][]Hit
 				devs  []string
-			}{{"bucket", ab, as, exp.Bucket, exp.Bdev}, {"scan", as, ab, exp.Scan, exp.Sdev}} {
+			}
+			rts := []routeRun{{"bucket", ab, as, exp.Bucket, exp.Bdev}, {"scan", as, ab, exp.Scan, exp.Sdev}}
+			if x.rng.Intn(3) == 0 {
+				// the multi-swamp streaming RPC has its own copy of the bucket branch
+				mb := x.query(sw, qc.Q, cqs[i].g, len(want) == 0, true)
+				ms := x.query(sw, qc.Q, cqs[i].forced, len(want) == 0, true)
+				if x.infra != nil {
+					return x.infra
+				}
+				x.st.Runs += 2
+				x.st.ManyRuns += 2
+				rts = append(rts, routeRun{"bucket", mb, ms, exp.Bucket, exp.Bdev}, routeRun{"scan", ms, mb, exp.Scan, exp.Sdev})
+			}
+			for ri, rt := range rts {
+				if ri >= 2 {
+					rt.name += " (GetByIndexStreamFromMany)"
+				}
+				scanRoute := ri%2 == 1
 				if len(rt.a.hits) > 0 {
 					x.st.NonEmpty++
 				}
@@ -716,18 +798,18 @@ func (x *runner) runCase(idx int, raw []byte) error {
 					r.Class, r.Detail = "unexplained", "the stream failed: "+rt.a.err
 					x.emit(r, raw)
 				case inSet(rt.a.hits, exp.Strict):
-					if rt.name == "scan" {
+					if scanRoute {
 						x.st.ScanOK++
 					} else {
 						x.st.BucketOK++
 					}
 				case len(rt.built) > 0 && inSet(rt.a.hits, rt.built):
-					if rt.name == "scan" {
+					if scanRoute {
 						x.st.ScanDev++
 					} else {
 						x.st.BucketDev++
 					}
-					x.st.DevCount[strings.Join(rt.devs, "+")+"/"+rt.name]++
+					x.st.DevCount[strings.Join(rt.devs, "+")+"/"+map[bool]string{true: "scan", false: "bucket"}[scanRoute]]++
 					r.Class, r.Devs = "dev", rt.devs
 					x.emit(r, raw)
 				default:
@@ -754,6 +836,7 @@ func (x *runner) runCase(idx int, raw []byte) error {
 func run(in, out string) error {
 	seed := int64(1)
 	fmt.Sscan(os.Getenv("VERIF_SEED"), &seed)
+	slog.SetDefault(slog.New(slog.NewTextHandler(io.Discard, nil)))
 	r := rig.New(rig.Options{CloseAfterIdle: 3600})
 	defer os.RemoveAll(r.Root)
 	defer r.Stop()
@@ -770,7 +853,7 @@ func run(in, out string) error {
 	defer of.Close()
 	w := bufio.NewWriter(of)
 	defer w.Flush()
-	x := &runner{r: r, c: r.GRPC(), rng: rand.New(rand.NewSource(seed)), out: json.NewEncoder(w), maxRep: 3,
+	x := &runner{r: r, c: r.GRPC(), rng: rand.New(rand.NewSource(seed)), out: json.NewEncoder(w), maxRep: 3, seen: map[[12]byte]struct{}{}, withCase: map[string]int{},
 		st: stats{DevCount: map[string]int{}, ModeCount: map[string]int{}, KindCount: map[string]int{}}}
 	rd := bufio.NewReaderSize(f, 1<<20)
 	idx := 0
